@@ -161,7 +161,17 @@ func (e *Engine) harnessAPI(name string, args []Value, fn *ssa.Function) (Value,
 		e.known[id] = c
 		return nil, true
 	case "vMapOrder":
+		// quick: three global schedules (insertion order / reversed / rotated), each applied to every range statement;
+		// thorough: every range statement picks its own permutation
 		e.mapOrderNondet = true
+		e.mapOrderMode = -1
+		if e.tier != "thorough" {
+			e.mapOrderMode = e.choose(3)
+			e.nondets = append(e.nondets, &Nondet{Name: "maporder", Kind: "choose", W: e.mapOrderMode})
+		}
+		return nil, true
+	case "vMapOrderOff":
+		e.mapOrderNondet = false
 		return nil, true
 	case "vFreeze":
 		e.epoch++
